@@ -2,6 +2,7 @@
 //@ append src/find/matchers/glob.rs
 //@ module verif_enum_glob
 //@ harness e_fnmatch kind=enum props=C12 thorough_bound=<<every pattern of 0..=5 symbols over {a, b, *, ?, [, ], !, -, backslash, /, ^} x every subject of 0..=3 symbols over {a, b, ., /, [, backslash, newline, ^, *, ?}; case-sensitive and caseless>> bound=<<every pattern of 0..=4 symbols over {a, b, *, ?, [, ], !, -, backslash, /, ^} x every subject of 0..=3 symbols over {a, b, ., /, [, backslash, newline, ^, *, ?}; case-sensitive and caseless (subjects also with A)>> label=<<Pattern::matches(pattern, subject) == fnmatch(pattern, subject, 0) of the C library (FNM_CASEFOLD for the -i forms), on the whole string>>
+//@ harness e_fnmatch_classes kind=enum props=C12 bound=<<bracket expressions [[:upper:]], [[:lower:]], [[:digit:]], [![:alpha:]], [[:alpha:]x], [a[:digit:]] optionally followed by x or * x subjects of 1..=2 symbols over {A, a, 1, x, -} x case-sensitive and caseless>> label=<<character classes in bracket expressions match as in fnmatch(), also in the -i forms>>
 // The oracle is the POSIX function the property names: libc's fnmatch().
 #[cfg(verif_replay)]
 mod verif_enum_glob {
@@ -53,4 +54,20 @@ mod verif_enum_glob {
         }
     }
     #[test] fn e_fnmatch() { kani::explore(body) }
+    fn classes_body() {
+        let br = ["[[:upper:]]", "[[:lower:]]", "[[:digit:]]", "[![:alpha:]]", "[[:alpha:]x]", "[a[:digit:]]"][pick(6)];
+        let pat = format!("{br}{}", ["", "x", "*"][pick(3)]);
+        let caseless = pick(2) == 1;
+        let m = Pattern::new(&pat, caseless);
+        // what ignoring case means for [:upper:] and [:lower:] is not defined by the statement (glibc folds the subject only,
+        // onig accepts either case): those two classes are compared case-sensitively only
+        if caseless && (br.contains("upper") || br.contains("lower")) { return; }
+        for s in subjects(&["A", "a", "1", "x", "-"], 2) {
+            if s.is_empty() { continue; }
+            let (got, want) = (m.matches(&s), libc_fnmatch(&pat, &s, caseless));
+            if got != want { eprintln!("  input pattern {pat:?} subject {s:?} caseless {caseless}: find says {got}, fnmatch() says {want}"); }
+            assert!(got == want, "differs from fnmatch()");
+        }
+    }
+    #[test] fn e_fnmatch_classes() { kani::explore(classes_body) }
 }
